@@ -741,7 +741,7 @@ Lemma bmp_scan_match_spec : forall rtl, bm_rtl t = rtl -> bmp_tab_ok t ->
   0 <= mtch < M -> test2 = test + mtch - bm_last rtl M ->
   (forall k, k = mtch \/ bmp_beyond pat rtl mtch k ->
      0 <= test + k - bm_last rtl M < N /\ bmp_tx (test + k - bm_last rtl M) = bmp_p pat k) ->
-  bm_scan_match lower t text fuel test test2 mtch = Ok s ->
+  bm_scan_match lower t text (bm_neg_lookup t) fuel test test2 mtch = Ok s ->
   match s with
   | BmRet r => bmp_occ rtl test /\ r = bmp_res rtl test
   | BmAdv test' => 1 <= (test' - test) * bm_bump rtl /\
@@ -797,7 +797,7 @@ Qed.
 Lemma bmp_scan_loop_spec : forall rtl, bm_rtl t = rtl -> bmp_tab_ok t ->
   forall beglimit endlimit fuel test r,
   (if rtl then test < endlimit else beglimit <= test) ->
-  bm_scan_loop lower t text (bmp_p pat (bm_last rtl M)) beglimit endlimit fuel test = Ok r ->
+  bm_scan_loop lower t text (bm_neg_lookup t) (bmp_p pat (bm_last rtl M)) beglimit endlimit fuel test = Ok r ->
   (r = -1 /\ forall d, 0 <= d -> beglimit <= test + d * bm_bump rtl < endlimit -> ~ bmp_occ rtl (test + d * bm_bump rtl)) \/
   (exists d, 0 <= d /\ beglimit <= test + d * bm_bump rtl < endlimit /\ bmp_occ rtl (test + d * bm_bump rtl) /\
              r = bmp_res rtl (test + d * bm_bump rtl) /\
@@ -815,7 +815,7 @@ Proof.
     (* one turn either answers, or moves on by D >= 1 without passing an occurrence *)
     assert (Hturn : forall test', 1 <= (test' - test) * bm_bump rtl ->
               (forall d, 0 <= d < (test' - test) * bm_bump rtl -> ~ bmp_occ rtl (test + d * bm_bump rtl)) ->
-              bm_scan_loop lower t text (bmp_p pat (bm_last rtl M)) beglimit endlimit f test' = Ok r ->
+              bm_scan_loop lower t text (bm_neg_lookup t) (bmp_p pat (bm_last rtl M)) beglimit endlimit f test' = Ok r ->
               (r = -1 /\ forall d, 0 <= d -> beglimit <= test + d * bm_bump rtl < endlimit -> ~ bmp_occ rtl (test + d * bm_bump rtl)) \/
               (exists d, 0 <= d /\ beglimit <= test + d * bm_bump rtl < endlimit /\ bmp_occ rtl (test + d * bm_bump rtl) /\
                          r = bmp_res rtl (test + d * bm_bump rtl) /\
@@ -834,7 +834,7 @@ Proof.
         replace (test + d' * bm_bump rtl) with (test' + (d' - D) * bm_bump rtl) by lia. apply Hbefore. lia. }
     destruct (bmp_tx test =? bmp_p pat (bm_last rtl M)) eqn:Eeq; cbn [negb] in Hs.
     + (* the tail character matches: compare the rest *)
-      destruct (bm_scan_match lower t text (S (length pat)) test test (bm_startmatch t)) as [s| | |] eqn:Em; try discriminate.
+      destruct (bm_scan_match lower t text (bm_neg_lookup t) (S (length pat)) test test (bm_startmatch t)) as [s| | |] eqn:Em; try discriminate.
       cbn [bind] in Hs.
       assert (Hsm : bm_startmatch t = bm_last rtl M) by (unfold bm_startmatch, bm_last; rewrite Hr; reflexivity).
       rewrite Hsm in Em.
@@ -885,7 +885,7 @@ Theorem bmp_scan_sound : forall fuel index beglimit endlimit r, bmp_tab_ok t -> 
 Proof.
   intros fuel index beglimit endlimit r Hok Hidx Hs. pose proof Hok as (HM & _ & _).
   remember (bm_rtl t) as rtl eqn:Hr. symmetry in Hr.
-  unfold bm_scan in Hs. rewrite (bmp_startmatch_at rtl Hr HM) in Hs. cbn [bind] in Hs.
+  unfold bm_scan, bm_scan_gen in Hs. rewrite (bmp_startmatch_at rtl Hr HM) in Hs. cbn [bind] in Hs.
   unfold bm_defadv in Hs. rewrite Hr in Hs.
   set (test0 := if rtl then index + - M else index + M - 1).
   replace (if rtl then index + (if rtl then - M else M) else index + (if rtl then - M else M) - 1) with test0 in Hs
@@ -922,7 +922,7 @@ Lemma bmp_scan_match_total : forall rtl, bm_rtl t = rtl -> bmp_tab_ok t ->
   0 <= mtch < M -> test2 = test + mtch - bm_last rtl M ->
   (forall k, 0 <= k < M -> 0 <= test + k - bm_last rtl M < N) ->
   (Z.to_nat ((mtch - (if rtl then M - 1 else 0)) * bm_bump rtl) < fuel)%nat ->
-  exists s, bm_scan_match lower t text fuel test test2 mtch = Ok s.
+  exists s, bm_scan_match lower t text (bm_neg_lookup t) fuel test test2 mtch = Ok s.
 Proof.
   intros rtl Hr (HM & Hpos & Hneg) Hnn fuel. rewrite Hr in Hpos.
   induction fuel as [|f IH]; intros test test2 mtch Hm Ht2 Hrg Hf; [lia|].
@@ -946,7 +946,7 @@ Lemma bmp_scan_loop_total : forall rtl, bm_rtl t = rtl -> bmp_tab_ok t ->
   forall fuel test,
   (if rtl then test < endlimit /\ test + M <= N else beglimit <= test /\ M - 1 <= test) ->
   (Z.to_nat (if rtl then test - beglimit + 1 else endlimit - test) < fuel)%nat ->
-  exists r, bm_scan_loop lower t text (bmp_p pat (bm_last rtl M)) beglimit endlimit fuel test = Ok r.
+  exists r, bm_scan_loop lower t text (bm_neg_lookup t) (bmp_p pat (bm_last rtl M)) beglimit endlimit fuel test = Ok r.
 Proof.
   intros rtl Hr Hok Hnn beglimit endlimit Hb He fuel. pose proof Hok as (HM & Hpos & Hneg).
   induction fuel as [|f IH]; intros test Hinv Hf; [lia|].
@@ -955,7 +955,7 @@ Proof.
   assert (Hrange : 0 <= test < N) by lia.
   rewrite (bmp_at_in text test Hrange). cbn [bind]. fold (bmp_tx test).
   assert (Hnext : forall test', 1 <= (test' - test) * bm_bump rtl ->
-            exists r, bm_scan_loop lower t text (bmp_p pat (bm_last rtl M)) beglimit endlimit f test' = Ok r).
+            exists r, bm_scan_loop lower t text (bm_neg_lookup t) (bmp_p pat (bm_last rtl M)) beglimit endlimit f test' = Ok r).
   { intros test' HD. apply IH; bmp_dir3; destruct rtl; lia. }
   destruct (bmp_tx test =? bmp_p pat (bm_last rtl M)) eqn:Eeq; cbn [negb].
   - assert (Hsm : bm_startmatch t = bm_last rtl M) by (unfold bm_startmatch, bm_last; rewrite Hr; reflexivity).
@@ -987,7 +987,7 @@ Theorem bmp_scan_total : forall index beglimit endlimit, bmp_tab_ok t ->
 Proof.
   intros index beglimit endlimit Hok Hnn Hb He Hidx. pose proof Hok as (HM & _ & _).
   remember (bm_rtl t) as rtl eqn:Hr. symmetry in Hr.
-  unfold bm_scan. rewrite (bmp_startmatch_at rtl Hr HM). cbn [bind].
+  unfold bm_scan, bm_scan_gen. rewrite (bmp_startmatch_at rtl Hr HM). cbn [bind].
   unfold bm_defadv. rewrite Hr.
   apply (bmp_scan_loop_total rtl Hr Hok Hnn beglimit endlimit Hb He); unfold zlen in *; destruct rtl; lia.
 Qed.
@@ -1175,3 +1175,118 @@ Proof.
   - intros scan Hsc. inversion Hsc; subst scan. exact (bmp_scan_fact lower t text R exec Hok Hnn Hfact).
   - intros H. discriminate.
 Qed.
+
+(* ====================================================================================
+   the statements of Properties/C03.v: everything from "newBmPrefix returned this machine"
+   ==================================================================================== *)
+Section Statements.
+Variable lower : Z -> Z.
+
+(* the pattern occurs AT k in the text under the fold the machine uses (lower-casing both sides when
+   caseInsensitive): it starts at k (left-to-right) / ends at k (right-to-left) *)
+Definition bmp_occurs (pattern : list Z) (ci rtl : bool) (text : list Z) (k : Z) : Prop :=
+  forall j, 0 <= j < zlen pattern ->
+    let q := if rtl then k - zlen pattern + j else k + j in
+    0 <= q < zlen text /\
+    bm_fold lower ci (nth (Z.to_nat q) text 0) = bm_fold lower ci (nth (Z.to_nat j) pattern 0).
+
+Lemma bmp_occ_at_occurs : forall pattern ci rtl t text k,
+  bm_pattern t = map (bm_fold lower ci) pattern -> bm_rtl t = rtl -> bm_ci t = ci ->
+  (bmp_occ_at lower t text k <-> bmp_occurs pattern ci rtl text k).
+Proof.
+  intros pattern ci rtl t text k Hp Hr Hc. unfold bmp_occ_at, bmp_occurs. rewrite Hp, Hr.
+  assert (Hl : zlen (map (bm_fold lower ci) pattern) = zlen pattern) by (unfold zlen; rewrite map_length; reflexivity).
+  rewrite Hl.
+  assert (Hpj : forall j, 0 <= j < zlen pattern ->
+            bmp_p (map (bm_fold lower ci) pattern) j = bm_fold lower ci (nth (Z.to_nat j) pattern 0)).
+  { intros j Hj. unfold bmp_p, bm_gz.
+    rewrite nth_indep with (d' := bm_fold lower ci 0) by (rewrite map_length; unfold zlen in Hj; lia).
+    apply map_nth. }
+  split; intros H j Hj; specialize (H j Hj); cbv zeta in *; unfold bmp_tx, bm_gz in *; rewrite Hc in *;
+    rewrite (Hpj j Hj) in *; exact H.
+Qed.
+
+Theorem bmp_scan_sound_stmt :
+  forall (pattern : list Z) (ci rtl : bool) (t : bmtab) (text : list Z) (fuel : nat) (index beglimit endlimit r : Z),
+    bm_new lower pattern ci rtl = Ok (Some t) ->
+    beglimit <= index <= endlimit ->
+    bm_scan lower t text fuel index beglimit endlimit = Ok r ->
+    let fits k := if rtl then beglimit <= k - zlen pattern else k + zlen pattern <= endlimit in
+    (r = -1 /\ forall k, sc_ord rtl index k -> fits k -> ~ bmp_occurs pattern ci rtl text k) \/
+    (sc_ord rtl index r /\ fits r /\ bmp_occurs pattern ci rtl text r /\
+     forall k, sc_ord rtl index k -> sc_before rtl k r -> ~ bmp_occurs pattern ci rtl text k).
+Proof.
+  intros pattern ci rtl t text fuel index beglimit endlimit r Hnew Hidx Hs fits.
+  destruct (bmp_new_Some_ok lower pattern ci rtl t Hnew) as (Hp & Hr & Hc & Hok).
+  assert (Hl : zlen (bm_pattern t) = zlen pattern) by (rewrite Hp; unfold zlen; rewrite map_length; reflexivity).
+  assert (Hfit : forall k, bmp_fits t beglimit endlimit k <-> fits k) by (intros k; unfold bmp_fits, fits; rewrite Hr, Hl; reflexivity).
+  pose proof (fun k => bmp_occ_at_occurs pattern ci rtl t text k Hp Hr Hc) as Hoc.
+  destruct (bmp_scan_sound lower t text fuel index beglimit endlimit r Hok Hidx Hs) as [[-> Hall]|(H1 & H2 & H3 & H4)];
+    rewrite Hr in *.
+  - left. split; [reflexivity|]. intros k Hk Hf Ho. apply (Hall k Hk); [apply Hfit; exact Hf | apply Hoc; exact Ho].
+  - right. split; [exact H1|]. split; [apply Hfit; exact H2|]. split; [apply Hoc; exact H3|].
+    intros k Hk Hb Ho. apply (H4 k Hk Hb). apply Hoc. exact Ho.
+Qed.
+
+Theorem bmp_scan_total_stmt :
+  forall (pattern : list Z) (ci rtl : bool) (t : bmtab) (text : list Z) (index beglimit endlimit : Z),
+    bm_new lower pattern ci rtl = Ok (Some t) ->
+    (forall x, In x text -> 0 <= bm_fold lower ci x) ->
+    0 <= beglimit -> endlimit <= zlen text -> beglimit <= index <= endlimit ->
+    exists r, bm_scan lower t text (S (length text)) index beglimit endlimit = Ok r.
+Proof.
+  intros pattern ci rtl t text index beglimit endlimit Hnew Hnn Hb He Hidx.
+  destruct (bmp_new_Some_ok lower pattern ci rtl t Hnew) as (Hp & Hr & Hc & Hok).
+  apply bmp_scan_total; try assumption.
+  intros i Hi. unfold bmp_tx. rewrite Hc. apply Hnn. unfold bm_gz. apply nth_In. unfold zlen in Hi. lia.
+Qed.
+
+Theorem bmp_is_match_stmt :
+  forall (pattern : list Z) (ci rtl : bool) (t : bmtab) (text : list Z) (index beglimit endlimit : Z),
+    bm_new lower pattern ci rtl = Ok (Some t) ->
+    0 <= beglimit -> endlimit <= zlen text ->
+    exists b, bm_is_match lower t text index beglimit endlimit = Ok b /\
+      (b = true <->
+       (if rtl then index <= endlimit /\ beglimit <= index - zlen pattern
+        else beglimit <= index /\ index + zlen pattern <= endlimit) /\
+       bmp_occurs pattern ci rtl text index).
+Proof.
+  intros pattern ci rtl t text index beglimit endlimit Hnew Hb He.
+  destruct (bmp_new_Some_ok lower pattern ci rtl t Hnew) as (Hp & Hr & Hc & Hok).
+  assert (Hl : zlen (bm_pattern t) = zlen pattern) by (rewrite Hp; unfold zlen; rewrite map_length; reflexivity).
+  destruct (bmp_is_match_spec lower t text index beglimit endlimit Hb He) as (b & Hbm & Hiff).
+  exists b. split; [exact Hbm|]. rewrite Hiff. unfold bmp_in_window. rewrite Hr, Hl.
+  rewrite (bmp_occ_at_occurs pattern ci rtl t text index Hp Hr Hc). reflexivity.
+Qed.
+
+(* all of findFirstCharDefault with the modelled machine: the two Boyer-Moore hypotheses of
+   fd_default_H1 are discharged; what remains is the compile-time fact "every successful attempt
+   starts / ends with the literal" *)
+Theorem bmp_finder_default_with_bm :
+  forall (R : Type) (text : list Z) (exec : Z -> option R * Z) (set_in : Z -> Z -> bool)
+         (pattern : list Z) (ci rtl : bool) (t : bmtab)
+         (anchors ts : Z) (o : option fdopts) (fc : option fdfc),
+    let n := zlen text in
+    let succeeds := fun x => fst (exec x) <> None in
+    (abit anchors ANCH_BEGINNING = true -> forall x, sc_in_text n x -> succeeds x -> x = 0) ->
+    (abit anchors ANCH_START = true -> forall x, sc_in_text n x -> succeeds x -> x = ts) ->
+    (abit anchors ANCH_ENDZ = true -> forall x, sc_in_text n x -> succeeds x ->
+       x = n \/ (x = n - 1 /\ nth (Z.to_nat x) text 0 = 10)) ->
+    (abit anchors ANCH_END = true -> forall x, sc_in_text n x -> succeeds x -> x = n) ->
+    bm_new lower pattern ci rtl = Ok (Some t) ->
+    (forall x, In x text -> 0 <= bm_fold lower ci x) ->
+    (forall x, sc_in_text n x -> succeeds x -> bmp_occurs pattern ci rtl text x) ->
+    sc_H1_true R n rtl (fd_total (fd_find_first_char_default text set_in lower rtl anchors ts
+                          (Some (bm_is_match_fn lower t text)) (Some (bm_scan_fn lower t text)) o fc)) exec /\
+    sc_H1_false R n rtl (fd_total (fd_find_first_char_default text set_in lower rtl anchors ts
+                           (Some (bm_is_match_fn lower t text)) (Some (bm_scan_fn lower t text)) o fc)) exec.
+Proof.
+  intros R text exec set_in pattern ci rtl t anchors ts o fc n succeeds F1 F2 F3 F4 Hnew Hnn Hfact.
+  destruct (bmp_new_Some_ok lower pattern ci rtl t Hnew) as (Hp & Hr & Hc & Hok).
+  pose proof (bmp_finder_default_H1 R text exec set_in lower anchors ts t o fc) as HH. cbv zeta in HH.
+  rewrite Hr in HH. apply HH; try assumption.
+  - intros i Hi. unfold bmp_tx. rewrite Hc. apply Hnn. unfold bm_gz. apply nth_In. unfold zlen in Hi. lia.
+  - intros x Hx Hs. apply (bmp_occ_at_occurs pattern ci rtl t text x Hp Hr Hc). apply Hfact; assumption.
+Qed.
+
+End Statements.
